@@ -89,12 +89,13 @@ type rangeInfo struct {
 }
 
 type VC struct {
-	w    *World
-	cs   *Contracts
-	ms   *ModSets
-	fn   *ssa.Function
-	spec *FuncSpec
-	key  string
+	w        *World
+	cs       *Contracts
+	ms       *ModSets
+	fn       *ssa.Function
+	spec     *FuncSpec
+	key      string
+	sendOrd  int         // ordinal of channel sends (site anchors 'at send chan#n')
 	closePts [][3]string // (allocTop, reach, epoch) of the heap-closure points emitted so far (closeAll)
 
 	cmds   []string
@@ -114,31 +115,31 @@ type VC struct {
 	paramVals  map[string]Val
 	allocBase  string
 
-	loops      map[*ssa.BasicBlock]*loopInfo
-	loopOrd    map[*ssa.BasicBlock]int
-	curBlock   *ssa.BasicBlock
-	notes      map[string]bool
-	unsupp     map[string]bool
-	assumedUse map[string]bool // assumed contracts / abstractions used
-	callOrd    map[string]int  // callee key -> count so far (anchors)
-	panicOrd   map[string]int
-	sumDefs    map[string]bool
-	curPos     token.Pos
-	inlineDepth int
+	loops                                map[*ssa.BasicBlock]*loopInfo
+	loopOrd                              map[*ssa.BasicBlock]int
+	curBlock                             *ssa.BasicBlock
+	notes                                map[string]bool
+	unsupp                               map[string]bool
+	assumedUse                           map[string]bool // assumed contracts / abstractions used
+	callOrd                              map[string]int  // callee key -> count so far (anchors)
+	panicOrd                             map[string]int
+	sumDefs                              map[string]bool
+	curPos                               token.Pos
+	inlineDepth                          int
 	retOrd, assignOrd, convOrd, noInsOrd int
-	closures   map[ssa.Value]*ssa.MakeClosure
-	edgeReach  map[[2]int]string
-	compType   map[string]types.Type // component -> Go type of the stored value
-	epochTop   map[int]string        // epoch -> allocTop when it started
-	siteHits   map[*SiteSpec]int
-	faOrd      map[*ssa.FieldAddr]int
-	srcOrd     map[*ssa.CallCommon]int // ordinal of a static call among the calls of the same callee, in source order
-	defined    map[string]bool // names introduced by define-fun (macros, not constants)
-	patAlias   map[string]string
-	allocSeq   map[*ssa.Alloc]int
-	allocCount int
-	nameCount  map[string]int
-	namedObjs  map[string]Val // named struct-typed locals (their storage object)
+	closures                             map[ssa.Value]*ssa.MakeClosure
+	edgeReach                            map[[2]int]string
+	compType                             map[string]types.Type // component -> Go type of the stored value
+	epochTop                             map[int]string        // epoch -> allocTop when it started
+	siteHits                             map[*SiteSpec]int
+	faOrd                                map[*ssa.FieldAddr]int
+	srcOrd                               map[*ssa.CallCommon]int // ordinal of a static call among the calls of the same callee, in source order
+	defined                              map[string]bool         // names introduced by define-fun (macros, not constants)
+	patAlias                             map[string]string
+	allocSeq                             map[*ssa.Alloc]int
+	allocCount                           int
+	nameCount                            map[string]int
+	namedObjs                            map[string]Val // named struct-typed locals (their storage object)
 }
 
 type loopInfo struct {
@@ -736,7 +737,9 @@ func (vc *VC) merge(edges []inEdge, hint string) *State {
 	for c := range cells {
 		cl = append(cl, c)
 	}
-	sort.Slice(cl, func(i, j int) bool { return cl[i].Pos() < cl[j].Pos() || (cl[i].Pos() == cl[j].Pos() && cl[i].Name() < cl[j].Name()) })
+	sort.Slice(cl, func(i, j int) bool {
+		return cl[i].Pos() < cl[j].Pos() || (cl[i].Pos() == cl[j].Pos() && cl[i].Name() < cl[j].Name())
+	})
 	for _, c := range cl {
 		inAll := true
 		for _, e := range edges {
